@@ -16,6 +16,8 @@ RULE = ("paths of 1-3 subpaths x 1-5 segments (Line/Quadratic/Cubic/Arc), open /
 ASSUMPTIONS = ["relative form: coordinates beyond 1e150 are not generated (emitted differences overflow, not rounding)",
                "arcs are generated with coordinates in 1e-100..1e100 (Arc construction squares them)",
                "relative-form tolerance: running bound sum_k 4*eps*(|start_k| + max|pt-start_k|) per component"]
+# coverage-guided second engine (atheris), thorough tier only: (shards, libFuzzer runs per shard)
+FUZZ = {'thorough': (16, 40000)}
 CONFIGS = ['scipy']
 BUDGET = {'quick': 24000, 'thorough': 300000}
 REQUIRED = ['Z_emitted', 'ST_emitted', 'multi_subpath', 'exp_format', 'closed_by_curve', 'closed_by_line',
